@@ -30,7 +30,8 @@ OPNAME = {0x06: 'find_by_type_value', 0x08: 'read_by_type', 0x0A: 'read', 0x0C: 
 
 
 def regen(ctx):
-    from translate import c10_tables
+    from translate import c10_skeleton, c10_tables
+    c10_skeleton.regen(ctx)
     c10_tables.regen(ctx)
 
 
@@ -172,6 +173,8 @@ def multi_ops(case, mdb1, mdb2, rng):
             ops += reads(2, a1, a2, False)
         # the unauthorised bearers try to write, then everybody reads again
         for k in (1, 2):
+            full = bytes((0xD0 + h + j) & 0xFF for j in range(bearers[k]['mtu'] - 3))
+            ops.append([k, ['rx', (b'\x12' + le16(h) + full).hex()]])
             ops.append([k, ['rx', (b'\x12' + le16(h) + bytes([0xE0, k])).hex()]])
             ops.append([k, ['rx', (b'\x52' + le16(h) + bytes([0xE1, k, 1])).hex()]])
             ops += reads(k, a1, a2, False)
@@ -219,7 +222,9 @@ def reading_ops(mdb1, mdb2, mtu, rng, light=False):
     return ops
 
 
-def writing_ops(mdb, rng):
+def writing_ops(mdb, rng, mtu=23):
+    """Write Request / Write Command to every attribute with short values and with boundary lengths
+    (0, ATT_MTU - 3 = the longest value one Write Request can carry, 512), each followed by a read back"""
     ops = []
     for a in mdb:
         h = a[0]
@@ -229,6 +234,10 @@ def writing_ops(mdb, rng):
         ops.append(['rx', (b'\x12' + ac.le16(h) + bytes([0xE0, h & 0xFF, 1])).hex()])
         ops.append(['rx', (b'\x0a' + ac.le16(h)).hex()])
         ops.append(['rx', (b'\x52' + ac.le16(h) + bytes([0xE1, h & 0xFF, 2, 2])).hex()])
+        ops.append(['rx', (b'\x0a' + ac.le16(h)).hex()])
+        n = [mtu - 3, 0, 512, mtu - 2][h % 4]
+        big = bytes((0xB0 + h + j) & 0xFF for j in range(n))
+        ops.append(['rx', (bytes([0x12 if h % 3 else 0x52]) + ac.le16(h) + big).hex()])
         ops.append(['rx', (b'\x0a' + ac.le16(h)).hex()])
     return ops
 
@@ -311,6 +320,8 @@ def oracle_single(case, r):
             if a is None:
                 continue
             new = pdu[3:]
+            if len(new) > 512:
+                continue          # over-long value: INVALID_ATTRIBUTE_LENGTH whatever the permissions (C10's model)
             code = ac.first_refusal(a[2], enc, auth, write=True)
             if code is not None:
                 if opc == 0x12:
@@ -360,7 +371,7 @@ def build_case(case, rng):
         n_read = len(ops)
     else:
         rd = reading_ops(probe1['db'], probe2['db'], case['bearer']['mtu'], rng, case.get('light', False))
-        wr = writing_ops(probe1['db'], rng)
+        wr = writing_ops(probe1['db'], rng, case['bearer']['mtu'])
         ops, n_read = rd + wr, len(rd)
     s1 = dict(key, db=case['db1'], max_mtu=517, ops=ops)
     s2 = dict(key, db=case['db2'], max_mtu=517, ops=ops)
